@@ -48,6 +48,8 @@ def _partition(rng, args, cons):
 
 def _line(mem, mcons, words, extra):
     toks = []
+    if sum(len(w) for w in words) % 5 == 0:
+        toks.append('GS:f=32768')      # Groups singleton with hfUsageCont: no influence on the evaluation
     for j, m in enumerate(mem):
         toks.append('G:m%d:f=0' % j)
         toks += [a.token() for a in m]
@@ -75,6 +77,27 @@ def gen_cases(tier, rng):
             cases.append('G:a:f=0 arg:%s:b0:init=0 G:b:f=0 arg:%s:b1:init=0 argv:- exp:setup mut:shared-key order:%s' % (k0, k1, o))
     # valid lines with interleaved definitions
     cases.append('G:a:f=0 arg:l:b0:init=0 arg:m:i0: G:b:f=0 arg:x:b1:init=0 arg:y:i1: argv:2d6c,2d79,34,2d78 exp:b0=1;b1=1;i0=0;i1=4 mut:none order:1,0,1,0')
+    # "--endvalues" (handler flag hfEndValues of one member) ends the value list of a multi-value argument of any
+    # member: the next free word is the positional argument's (outside the model: judged by the expected values)
+    import itertools
+    mems = {'a': 'arg:f:b0:init=0', 'b': 'arg:l,list:vi0:multi', 'c': 'arg:-:s0:'}
+    for order in itertools.permutations('abc'):
+        for ev in 'abc':
+            toks = []
+            for m in order:
+                toks.append('G:%s:f=%d' % (m, 0x10000 if m == ev else 0))
+                toks.append(mems[m])
+            for w, exp in ((['-l', '1', '2', '--endvalues', 'x3'], 'b0=0;s0=s%s;vi0=[1,2]' % A.hx('x3')),
+                           (['-l', '1', '2', 'x3'], 'reject'),
+                           (['-l', '1', '--endvalues', '-f'], 'b0=1;s0=s-;vi0=[1]'),
+                           (['-l', '1', '2', '-f', 'x3'], 'b0=1;s0=s%s;vi0=[1,2]' % A.hx('x3'))):
+                cases.append(' '.join(toks) + ' ' + A.argv_tok(w) + ' exp:%s mut:%s' % (exp, 'bad-value' if exp == 'reject' else 'none'))
+    # the Groups singleton created with "continue after the usage": the end-of-line checks still run
+    cases.append('GS:f=32768 G:a:f=0 arg:m:i0:man G:b:f=0 arg:x:b0:init=0 argv:2d78 exp:reject mut:drop-mandatory')
+    cases.append('GS:f=32768 G:a:f=0 arg:m:i0:man G:b:f=0 arg:x:b0:init=0 argv:- exp:reject mut:empty-line')
+    cases.append('GS:f=32768 G:a:f=0 arg:l:b0:init=0/req=r arg:r:b1:init=0 G:b:f=0 arg:x:i0: argv:2d6c,2d78,33 exp:reject mut:group-end-checks')
+    cases.append('GS:f=32768 G:a:f=0 arg:l:b0:init=0 arg:m:b1:init=0 con:all_of:l;m G:b:f=0 arg:x:b2:init=0 argv:2d6c,2d78 exp:reject mut:group-end-checks')
+    cases.append('GS:f=32768 G:a:f=0 arg:m:i0: G:b:f=0 arg:x:b0:init=0 argv:2d78,2d6d,34 exp:b0=1;i0=4 mut:none')
     # the empty command line: the end-of-line checks of every member still run
     cases.append('G:a:f=0 arg:m:i0:man G:b:f=0 arg:x:b0:init=0 argv:- exp:reject mut:empty-line')
     cases.append('G:a:f=0 arg:x:b0:init=0 G:b:f=0 arg:m:s0:man argv:- exp:reject mut:empty-line')
@@ -197,7 +220,7 @@ def _abbrev_region(case):
 
 
 def classify(case, ir, mr):
-    if case.startswith('G:') and _abbrev_region(case):
+    if (case.startswith('G:') or case.startswith('GS:')) and _abbrev_region(case):
         return 'group-abbrev-per-member'
     for t in case.split(' '):
         if t.startswith('mut:'):
